@@ -388,6 +388,21 @@ pub fn run(ctx: &Ctx) {
             check_div,
         );
     }
+    ctx.enumerated(
+        "division-signed-small",
+        "pair",
+        61 * 121,
+        true,
+        "EXHAUSTIVE: numerators -30..30 x denominators -60..60 (zero skipped): both signs through every decimal and primitive form",
+        |i| {
+            let (a, b) = (i as i64 / 121 - 30, i as i64 % 121 - 60);
+            if b == 0 {
+                return None;
+            }
+            Some(Pair { a: D::new(a.to_string(), 0), b: D::new(b.to_string(), 0) })
+        },
+        check_div,
+    );
     ctx.generated("division-random", "pair", t.pick(10_000, 40_000), "decimals of 1..120 digits, divisors 2^i*5^j among them", pair_strategy, check_div);
     ctx.generated("default-vs-explicit", "num", t.pick(4_000, 16_000), "sqrt, cbrt, inverse, round: default form vs explicit context at the configured values vs oracle", num_strategy, check_num);
     ctx.generated("exp-digits", "exp", t.pick(400, 1_600), "exp delivers the configured number of digits (|x| < 10)", exp_strategy, check_exp_digits);
